@@ -147,3 +147,9 @@ m("c19-lazy-table-magic-static", "C19", 0, [("src/gm2_mf.cpp", "#include <cmath>
    "   static const std::array<double, 64> table = [] { std::array<double, 64> t{}; for (int i = 0; i < 64; ++i) { t[i] = std::log(1.0 + i); } return t; }();\n"
    "   (void)table[7];\n" + _LAZY_OLD)],
   "function-local static initialised by a lambda (guarded by the compiler): property holds")
+
+m("c19-copy-forgets-member", "C19", 1, [("include/gm2calc/MSSMNoFV_onshell.hpp",
+   "   MSSMNoFV_onshell();\n",
+   "   MSSMNoFV_onshell();\n   MSSMNoFV_onshell(const MSSMNoFV_onshell& o)\n      : MSSMNoFV_onshell_mass_eigenstates(o), verbose_output(o.verbose_output), EL(o.EL), EL0(o.EL0), Au(o.Au), Ad(o.Ad), Ae(o.Ae) {}\n"
+   "   MSSMNoFV_onshell& operator=(const MSSMNoFV_onshell&) = default;\n")],
+  "user-written copy constructor that forgets mb_DRbar_MZ: results on a copy differ from the original")
